@@ -12,7 +12,7 @@ import time
 
 import numpy as np
 
-from ..harness import T, sig_of, snapshot
+from ..harness import T, sig_of, snapshot, gradof, set_grad
 from ..symnum import engine as E
 from ..symnum import scalar as sc
 from ..symnum import diff
@@ -78,21 +78,19 @@ class StepCase:
         for name, t, mode in (("a", a, sp["pre_a"]), ("b", b, sp["pre_b"])):
             if mode == "sym":
                 pre[name] = env.arr("pre_" + name, SHAPE)
-                t._grad = snapshot(pre[name])
+                set_grad(t, snapshot(pre[name]))
         for i, (name, t) in enumerate(nodes):
             mode = sp["pre_nodes"][i]
             if mode != "absent":
                 buf = env.arr("stale_%s" % name, t.shape)
-                t._grad = snapshot(buf)
+                set_grad(t, snapshot(buf))
             if mode == "retained":
-                t._retain_grad = True
-        prev_flag = tm.retain_grads__
-        tm.retain_grads__ = bool(sp["retain_all"])
-        try:
+                t.retain_grad()
+        import contextlib
+        import synapgrad
+        with (synapgrad.retain_grads() if sp["retain_all"] else contextlib.nullcontext()):
             g = env.arr("g", root.shape, lo=-2, hi=2)
             root.backward(Tn(g))
-        finally:
-            tm.retain_grads__ = prev_flag
         if env.sym:
             ga, gb = vjp_terms(root, g, [a_arr, b_arr])
             for name, t, true in (("a", a, ga), ("b", b, gb)):
@@ -101,14 +99,14 @@ class StepCase:
                     exp = [e + p for e, p in zip(exp, pre[name].view(np.ndarray).reshape(-1))]
                 reach = _reaches(root, t)
                 if not reach and name not in pre:
-                    out.fact("unreached leaf %s stays without gradient" % name, t._grad is None)
-                elif t._grad is None:
+                    out.fact("unreached leaf %s stays without gradient" % name, gradof(t) is None)
+                elif gradof(t) is None:
                     out.fact("leaf %s has a gradient" % name, False, "no .grad after backward")
                 else:
-                    out.pair("sym:leaf %s = previous buffer + true gradient of this call" % name, t._grad,
+                    out.pair("sym:leaf %s = previous buffer + true gradient of this call" % name, gradof(t),
                              np.array(exp, dtype=object).reshape(t.shape))
-        out.notes["obs:grad_a"] = a._grad if a._grad is not None else np.zeros(0)
-        out.notes["obs:grad_b"] = b._grad if b._grad is not None else np.zeros(0)
+        out.notes["obs:grad_a"] = gradof(a) if gradof(a) is not None else np.zeros(0)
+        out.notes["obs:grad_b"] = gradof(b) if gradof(b) is not None else np.zeros(0)
         return out
 
     def replay(self, cand):
@@ -189,7 +187,7 @@ class HistCase:
                     node = reg[i]
                     g = env.arr("g%d" % ng, node.shape, lo=-2, hi=2)
                     ng += 1
-                    others = [(j, t, None if t._grad is None else snapshot(t._grad)) for j, t in enumerate(reg)
+                    others = [(j, t, None if gradof(t) is None else snapshot(gradof(t))) for j, t in enumerate(reg)
                               if not _reaches(node, t)]
                     node.backward(Tn(g))
                     if env.sym:
@@ -200,10 +198,10 @@ class HistCase:
                                 acc[name] = [c + S(x) for c, x in zip(cur, true)]
                     for j, t, snap in others:
                         if snap is None:
-                            out.fact("unreachable tensor %d untouched by action %d" % (j, step), t._grad is None)
+                            out.fact("unreachable tensor %d untouched by action %d" % (j, step), gradof(t) is None)
                         else:
                             out.pair("unreachable tensor %d untouched by action %d" % (j, step),
-                                     t._grad if t._grad is not None else np.zeros(0), snap)
+                                     gradof(t) if gradof(t) is not None else np.zeros(0), snap)
                 elif act[0] == "R":
                     i = int(act[1])
                     if i >= len(reg):
@@ -233,20 +231,20 @@ class HistCase:
                     for name, t in leaves.items():
                         if acc[name] is None:
                             out.fact("leaf %s has no gradient before it is first reached (after action %d)" % (name, step),
-                                     t._grad is None)
-                        elif t._grad is None:
+                                     gradof(t) is None)
+                        elif gradof(t) is None:
                             out.fact("leaf %s keeps its accumulated gradient (after action %d)" % (name, step), False,
                                      "buffer is None")
                         else:
                             out.pair("sym:leaf %s = sum of true gradients since its last reset (after action %d: %s)" % (
-                                name, step, " ".join(self.spec["history"][:step + 1])), snapshot(t._grad),
+                                name, step, " ".join(self.spec["history"][:step + 1])), snapshot(gradof(t)),
                                 np.array(acc[name], dtype=object).reshape(t.shape))
         finally:
             while ctx_stack:
                 ctx_stack.pop().__exit__(None, None, None)
             tm.retain_grads__ = prev_flag
-        out.notes["obs:grad_a"] = a._grad if a._grad is not None else np.zeros(0)
-        out.notes["obs:grad_b"] = b._grad if b._grad is not None else np.zeros(0)
+        out.notes["obs:grad_a"] = gradof(a) if gradof(a) is not None else np.zeros(0)
+        out.notes["obs:grad_b"] = gradof(b) if gradof(b) is not None else np.zeros(0)
         return out
 
     def replay(self, cand):
@@ -471,7 +469,7 @@ class NonFiniteResetCase:
                 mid.retain_grad()
                 f(mid).sum().backward()
                 target = mid
-            had = target._grad
+            had = gradof(target)
             if env.sym:
                 first_special = any(v.n.op in ("inf", "nan") for v in had.view(np.ndarray).reshape(-1))
             else:
@@ -494,11 +492,11 @@ class NonFiniteResetCase:
             a = env.arr("a", (2,), lo=-2, hi=2)
             if sp["where"] == "leaf":
                 (holder * Tn(a)).sum().backward()
-                got = holder._grad
+                got = gradof(holder)
                 want = a
             else:
                 (target * Tn(a)).sum().backward()        # interior node of the earlier call, reused in a new graph
-                got = holder._grad
+                got = gradof(holder)
                 want = a if sp["via"] == "zero_" else None   # module/optimizer resets do not reach the interior buffer: the leaf
             if got is None:                                   # was reset, and the stale interior buffer must not leak (C04)
                 out.fact("the leaf has a gradient after the second backward", False)
@@ -554,7 +552,7 @@ def main(tier, seed):
                      "buffer is arbitrary (what any real history can leave behind via retain_grad / retain_grads / having "
                      "been a root); one step from this state covers histories of any length",
                      "zeroing is read as 'buffer of zeros' (Tensor.zero_, Module.zero_grad, Optimizer.zero_grad)"],
-        stubs=["retain_grads__ module flag and Tensor._grad/_retain_grad set directly to build the arbitrary pre-state"],
+        stubs=["gradient buffers are put on the tensors directly (Tensor._grad, or the public .grad setter if that name is gone) to build the arbitrary pre-state; retain_grad() / retain_grads() through the public API"],
         extra_cov={"exhaustive": False},
         rule="inductive-step configurations are exhaustive; histories are exhaustively generated and the longest tails "
              "sampled; values, stale buffers and seed gradients symbolic; oracle = scalar differentiator on the composed terms")
